@@ -118,7 +118,16 @@ Inductive op :=
 | OShrinkTo (v : nat) (n : N)
 | OViews (v : nat)
 | OSpareWrite (a : api) (v : nat) (k : N)
-| OSetLen (v : nat) (n : N).
+| OSetLen (v : nat) (n : N)
+| OIterClone (ik : iterkind) (v : nat) (pat1 pat2 : list bool)   (* advance, clone, advance both *)
+| OProbeTypes (v : nat) (idx : N)                (* downcasts / reports with the right and a wrong type *)
+| ODownWrong (v : nat) (k : tkind) (idx : N)     (* removal handle .downcast::<Wrong>() *)
+| OSwapWrong (v : nat) (idx : N)                 (* element swap with a value of another type *)
+| OWrite (hk : N) (v : nat) (idx : N)            (* replace element idx through handle kind hk *)
+| ORead (hk : N) (v : nat) (idx : N)             (* read element idx through view kind hk *)
+| OSwap (pr : N) (v1 : nat) (i : N) (v2 : nat) (j : N)   (* AnyValueMut::swap between handle kinds *)
+| OParts (v : nat) (mode : N)                    (* into_raw_parts / clone / from_raw_parts *)
+| OPlacement.                                    (* storage alignment over all placements of the vector *)
 
 (** ** Offering a value to push / insert *)
 
@@ -529,6 +538,92 @@ Definition exec (c : cfg) (o : op) : M world (N * list N) :=
       on_vec v (set_len c (vlen vv + k));;
       ret (0, [])
   | OSetLen v n => on_vec v (set_len c n);; ret (0, [])
+  | OIterClone _ v pat1 pat2 =>
+      do vv <- peek_vec v;
+      let k0 := {| ci := 0; ce := vlen vv |} in
+      let fix adv (pat : list bool) (k : cursor) : cursor :=
+        match pat with
+        | [] => k
+        | f :: r => adv r (snd (if f then cur_next k else cur_next_back k))
+        end in
+      do r1 <- walk_ro c v pat1 k0;
+      let k1 := adv pat1 k0 in
+      (* the clone is a copy of the cursor: both continue independently from k1 *)
+      do rc <- walk_ro c v pat2 k1;
+      do ro <- walk_ro c v pat2 k1;
+      ret (0, cur_len k0 :: r1 ++ cur_len k1 :: rc ++ cur_len k1 :: ro)
+  | OProbeTypes v idx =>
+      do vv <- peek_vec v;
+      (* vector: downcast_ref/mut right, wrong; element_typeid ok; layout size, align *)
+      let head := [1; 0; 1; 0; 1; c_sz c; c_al c] in
+      if idx <? vlen vv then
+        (* ElementRef: typeid ok, size, downcast_ref right/wrong; ElementMut: downcast_mut right/wrong
+           (inherent and trait versions) *)
+        ret (0, head ++ [1; c_sz c; 1; 0; 1; 0; 1; 0])
+      else ret (0, head)
+  | ODownWrong v k idx =>
+      do oh <- temp_open c v k idx;
+      match oh with
+      | None => ret (1, [])
+      | Some h =>
+          (* value_typeid ok, size, downcast_ref / downcast_mut wrong = None, then
+             downcast::<Wrong>() = None: the handle is dropped *)
+          on_vec v (temp_drop c false h);; ret (0, [1; c_sz c; 0; 0; 0])
+      end
+  | OSwapWrong v idx =>
+      do vv <- peek_vec v;
+      assert_ (idx <? vlen vv) PIndex;;
+      do t <- freshw c;
+      unwinding (raise PType) (harness_drop c t)
+  | OWrite _ v idx =>
+      do vv <- peek_vec v;
+      assert_ (idx <? vlen vv) PIndex;;
+      let p := ptr_at c vv idx in
+      do bs <- on_vec v (read_ptr c p);
+      do t <- decode c bs;
+      do n <- freshw c;
+      on_vec v (write_ptr c p (enc_c c n));;
+      harness_drop c t;;
+      ret (0, [t])
+  | ORead _ v idx =>
+      do vv <- peek_vec v;
+      if idx <? vlen vv then
+        do bs <- on_vec v (read_ptr c (ptr_at c vv idx));
+        do t <- decode c bs;
+        ret (0, [t; 1; c_sz c])
+      else ret (1, [])
+  | OSwap pr v1 i v2 j =>
+      do a <- peek_vec v1;
+      do b <- peek_vec v2;
+      assert_ (i <? vlen a) PIndex;;
+      assert_ (j <? vlen b) PIndex;;
+      if pr =? 0 then
+        (* ElementMut.swap(ElementMut) *)
+        do ba <- on_vec v1 (read_ptr c (ptr_at c a i));
+        do bb <- on_vec v2 (read_ptr c (ptr_at c b j));
+        on_vec v1 (write_ptr c (ptr_at c a i) bb);;
+        on_vec v2 (write_ptr c (ptr_at c b j) ba);;
+        ret (0, [])
+      else
+        (* removal handle of v1[i] swapped with ElementMut v2[j] (either direction), then the
+           handle - now holding v2[j]'s old value - is dropped *)
+        do oh <- temp_open c v1 TRemove i;
+        match oh with
+        | None => ret (1, [])
+        | Some h =>
+            do p <- on_vec v1 (temp_ptr c h);
+            do ba <- on_vec v1 (read_ptr c p);
+            do bb <- on_vec v2 (read_ptr c (ptr_at c b j));
+            on_vec v1 (write_ptr c p bb);;
+            on_vec v2 (write_ptr c (ptr_at c b j) ba);;
+            on_vec v1 (temp_drop c false h);;
+            ret (0, [])
+        end
+  | OParts v mode =>
+      do vv <- peek_vec v;
+      (* len, capacity, layout size, align, type id ok, has drop fn; no event, state unchanged *)
+      ret (0, [vlen vv; vcap vv; c_sz c; c_al c; 1; if c_dg c then 1 else 0])
+  | OPlacement => ret (0, [0])
   end.
 
 (** One step of a case: fresh event log, the given fuse; a panic is caught
